@@ -424,12 +424,27 @@ def replay_sequence(inputs):
     from verif.native.synth import hopping_system
     seed = inputs['seed']
     rng = np.random.default_rng(seed)
-    traj, sites, info = hopping_system(seed, n_frames=int(inputs.get('n_frames', 17)), n_diff=2, n_frame_atoms=2, vib=0.04, hop_prob=0.05, interleave=bool(seed % 2))
+    # every third system has framework species whose symbols contain one another (S / Si): a selection is by symbol, not by substring
+    traj, sites, info = hopping_system(seed, n_frames=int(inputs.get('n_frames', 17)), n_diff=2, n_frame_atoms=2, vib=0.04, hop_prob=0.05, interleave=bool(seed % 2),
+                                       frame_symbols=('S', 'Si') if seed % 3 == 0 else ('O', 'P'))
     view = traj.positions.copy()
     symbols = [s.symbol for s in traj.species]
     lat = np.array(traj.lattice, dtype=float).reshape(3, 3).copy()  # the raw cell, not the library's get_lattice()
     meta = dict(traj.metadata)
     bad = []
+    # selections by symbol among species whose symbols contain one another, in every string form
+    from pymatgen.core import Element as _El
+    from gemdat.trajectory import Trajectory as _Tr
+    fam = ['Li', 'S', 'Si', 'N', 'Na', 'I']
+    tq = _Tr(species=[_El(x) for x in fam], coords=rng.random((3, len(fam), 3)), lattice=np.eye(3) * 9.0, time_step=1e-15)
+    for k_, sym_ in enumerate(fam):
+        for form_, arg_ in (('str', sym_), ('numpy str', np.str_(sym_)), ('tuple', (sym_,)), ('list', [sym_]), ('list of numpy str', [np.str_(sym_)])):
+            try:
+                got_ = [x.symbol for x in tq.filter(arg_).species]
+            except Exception as e:
+                got_ = f'{type(e).__name__}: {e}'
+            if got_ != [sym_]:
+                bad.append(f'filter({sym_!r} as {form_}) of a trajectory with species {fam} selects {got_}')
     ops = inputs.get('ops') or [str(x) for x in rng.choice(['pos', 'disp', 'cum', 'dist', 'filter', 'slice', 'slice_step', 'split', 'split_equal', 'extend', 'drift', 'volume', 'metrics', 'msd', 'index', 'list'], size=int(inputs.get('n_ops', 10)))]
 
     def close(a, b):
@@ -486,6 +501,8 @@ def replay_sequence(inputs):
                 arg = sym if isinstance(sym, str) else [list, tuple, frozenset, lambda x: dict.fromkeys(x).keys()][form](sym)
                 if isinstance(sym, str) and form == 1:
                     arg = (sym,)
+                if isinstance(sym, str) and form == 2:
+                    arg = np.str_(sym)  # a numpy string (e.g. an element of np.unique(symbols)) is a string
                 new = cur.filter(arg)
                 mask = np.array([s in sel for s in csyms])
                 check(new, cview[:, mask], [s for s in csyms if s in sel], f'filter({sym}) result')
